@@ -104,6 +104,41 @@ func c11r1(c *Check) {
 	}
 }
 
+// ownHelpers: root and the helper methods of root's receiver type that run only as part of root —
+// every call-graph edge into such a helper is a synchronous call (or defer) from root or from
+// another such helper, and the helper never escapes as a function value. What these functions do
+// is done by root and by nobody else.
+func ownHelpers(p *Prog, root *ssa.Function) map[*ssa.Function]bool {
+	g := p.CG()
+	own := map[*ssa.Function]bool{}
+	for _, f := range workerFuncs(p, root) {
+		own[EnclosingDecl(f)] = true
+	}
+	taken := map[*ssa.Function]bool{}
+	for _, f := range g.addrTaken {
+		taken[f] = true
+	}
+	for changed := true; changed; {
+		changed = false
+		for f := range own {
+			if f == root {
+				continue
+			}
+			ok := !taken[f] && len(g.In[f]) > 0
+			for _, e := range g.In[f] {
+				if (e.Kind != EdgeCall && e.Kind != EdgeDefer) || e.Dyn || e.Caller == nil || !own[EnclosingDecl(e.Caller)] {
+					ok = false
+				}
+			}
+			if !ok {
+				delete(own, f)
+				changed = true
+			}
+		}
+	}
+	return own
+}
+
 func isTableConfig(t types.Type) bool {
 	if p, ok := t.Underlying().(*types.Pointer); ok {
 		t = p.Elem()
@@ -116,11 +151,12 @@ func c11r2(c *Check) {
 	outF := c.P.Field("aggregator", "Aggregator", "out")
 	tableIn := c.P.Field("table", "Table", "In")
 	flush := c.P.Func("aggregator", "*Aggregator", "Flush")
+	flushOwn := ownHelpers(c.P, flush)
 	nSend := 0
 	for _, fn := range c.P.Funcs {
 		for _, s := range sendsOn(fn, outF) {
 			nSend++
-			c.Judge(EnclosingDecl(fn) == flush, FuncName(fn)+" sends on Aggregator.out", c.At(s), "aggregate points are emitted by Flush only", "a function other than Flush emits on the aggregator's output channel")
+			c.Judge(flushOwn[EnclosingDecl(fn)], FuncName(fn)+" sends on Aggregator.out", c.At(s), "aggregate points are emitted by Flush only (or by a helper method that only Flush runs)", "a function other than Flush emits on the aggregator's output channel")
 		}
 	}
 	if nSend == 0 {
